@@ -72,6 +72,17 @@ def sec_ubox(draw):
 def sec_geom(draw):
     a = draw(ubox_ctor())
     b = draw(ubox_ctor())
+    mode = draw(st.integers(0, 3))
+    if mode > 0:
+        # overlapping pair: b near a (mode 3: same orientation, different centre)
+        ax, ay = (a["xc"], a["yc"]) if "xc" in a else (a["left"] + a["width"] / 2, a["top"] + a["height"] / 2)
+        nx, ny = f32(ax + draw(fl(-1, 1)) * a["height"]), f32(ay + draw(fl(-1, 1)) * a["height"])
+        if "xc" in b:
+            b["xc"], b["yc"] = nx, ny
+            if mode == 3 and "angle" in a:
+                b["angle"] = a["angle"]
+        else:
+            b["left"], b["top"] = f32(nx - b["width"] / 2), f32(ny - b["height"] / 2)
     return {"kind": "geom", "a": a, "b": b}
 
 
@@ -202,6 +213,8 @@ def tracker_ops(draw, visual, batch, nobj, scenes, occluder=False):
                     # the occluder axis-aligned, offsets fixed): object 0 owns only part of its area
                     dets.append({"box": {"ctor": "new_with_confidence", "xc": f32(x + 13.37), "yc": f32(y + 9.21), "angle": None, "aspect": f32(1.1), "height": f32(41.3), "confidence": 1.0},
                                  "custom": 77, "feature": [f32(math.cos(7.7 + k)) for k in range(4)], "quality": 0.9})
+            # the order in which known objects are listed changes from frame to frame
+            dets = list(draw(st.permutations(dets)))
             ops.append({"op": "predict", "scene": scene, "default_scene": (scene == 0 and not batch and draw(st.booleans())), "dets": dets})
         elif kind == "skip":
             # expiry boundaries: gaps around the documented default idle limits (2 and 5)
